@@ -22,6 +22,7 @@ import "bufio"
 import "fmt"
 import "io"
 import "math"
+import "math/big"
 import "os"
 import "strconv"
 
@@ -231,6 +232,14 @@ func parseTableInt(str string, bitSize int) (int64, error) {
   }
   if math.IsNaN(v) || v < -math.Ldexp(1.0, bitSize-1) || v >= math.Ldexp(1.0, bitSize-1) {
     return 0, &strconv.NumError{Func: "ParseInt", Num: str, Err: strconv.ErrRange}
+  }
+  if math.Abs(v) >= math.Ldexp(1.0, 53) {
+    // beyond 2^53 a float64 does not hold every integer: accept the entry
+    // only if it denotes exactly the value that was parsed
+    f, _, err := big.ParseFloat(str, 10, 256, big.ToNearestEven)
+    if err != nil || f.Cmp(new(big.Float).SetFloat64(v)) != 0 {
+      return 0, &strconv.NumError{Func: "ParseInt", Num: str, Err: strconv.ErrRange}
+    }
   }
   return int64(v), nil
 }
